@@ -435,6 +435,12 @@ class World:
             ok = adapter.message_from(self.gen, {"kind": "ac_status_request"})
             enc = self.registry.get_encoder(ok.message_id)
             hdr = self.registry.header_factory.create_from_message(ok, enc.size(ok))
+            if step.get("bad_header"):
+                # a header the header encoder cannot encode (packet id outside one byte) in front of an ordinary message
+                import dataclasses
+
+                hdr = dataclasses.replace(hdr, packet_id=300)
+                msg = ok
             await self.sock.send_with_header(hdr, msg, adapter.policy_of(step.get("policy", "idem")))
 
         self._spawn_user(step, go)
@@ -557,6 +563,10 @@ class World:
 
     def op_user_hb_stop(self, step) -> None:
         self._spawn_user(step, lambda: self.hb.stop())
+
+    def op_console_ignore(self, step) -> None:
+        """Control kinds the console silently ignores from now on (a busy / locked console)."""
+        self.console.ignore_controls = set(step.get("kinds", []))
 
     def op_console_delay(self, step) -> None:
         self.console.answer_delay = step["delay"]
